@@ -18,6 +18,8 @@ mod walk;
 
 use gen::*;
 use gpos_case::CaseSpec;
+use serde_json::json;
+use std::collections::BTreeMap;
 use vf_core::{Args, Ctx, PanicPolicy, Rng, Tier};
 
 pub const REPLAY: Option<fn(&mut Ctx, &Args, &serde_json::Value, Option<&[u8]>)> = None;
@@ -350,6 +352,9 @@ pub fn run(ctx: &mut Ctx, _args: &Args) {
     let cov_s = t0.elapsed().as_secs_f64();
     let scen = scenarios(ctx.tier, ctx.seed);
     let only: Option<String> = std::env::var("VF_C16_ONLY").ok();
+    if ctx.mine(0) {
+        device_new_probe(ctx);
+    }
     for s in &scen {
         if !ctx.mine(s.index) {
             continue;
@@ -363,5 +368,88 @@ pub fn run(ctx: &mut Ctx, _args: &Args) {
     }
     if std::env::var("VF_C16_VERBOSE").is_ok() {
         eprintln!("covclass {:.1}s, total {:.1}s", cov_s, t0.elapsed().as_secs_f64());
+    }
+}
+
+
+/// `Device::new(start, end, values)` is the only place where per-size pixel deltas are packed:
+/// every other device oracle of this check starts from the already packed words. Here the deltas
+/// handed to the constructor are compared with what the packed words denote under the OpenType
+/// packing (reference decoder) and with what read-fonts' `Device::iter` gives after compiling,
+/// for every sequence of length 1..=3 over a boundary alphabet (the limits of the 2-, 4- and
+/// 8-bit formats on both sides) and for longer sequences that straddle word boundaries.
+fn device_new_probe(ctx: &mut Ctx) {
+    use read_fonts::FontRead;
+    use write_fonts::tables::layout as wl;
+    const ALPHA: [i8; 16] = [-128, -127, -9, -8, -7, -3, -2, -1, 0, 1, 2, 3, 7, 8, 9, 127];
+    let mut seqs: Vec<Vec<i8>> = vec![];
+    for a in ALPHA {
+        seqs.push(vec![a]);
+        for b in ALPHA {
+            seqs.push(vec![a, b]);
+            for c in ALPHA {
+                seqs.push(vec![a, b, c]);
+            }
+        }
+    }
+    // longer runs: one extreme value at every position of a 1..=17 long run of small values
+    for n in 4..=17usize {
+        for pos in 0..n {
+            for x in [-8i8, -2, 1, 2, 7, 8, -128, 127] {
+                for fill in [0i8, 1, -1, -2] {
+                    let mut v = vec![fill; n];
+                    v[pos] = x;
+                    seqs.push(v);
+                }
+            }
+        }
+    }
+    let mut formats: BTreeMap<u16, u64> = BTreeMap::new();
+    for (k, values) in seqs.iter().enumerate() {
+        let start = 6 + (k % 5) as u16;
+        let end = start + values.len() as u16 - 1;
+        let what = format!("device-new:{}..={}:{:?}", start, end, values);
+        let r = vf_core::guard(|| {
+            let d = wl::Device::new(start, end, values);
+            let fmt = d.delta_format as u16;
+            let by_ref = model::ref_decode_device(d.start_size, d.end_size, fmt, &d.delta_value);
+            let bytes = write_fonts::dump_table(&d).map_err(|e| format!("{e}"));
+            let by_lib = match &bytes {
+                Ok(b) => match read_fonts::tables::layout::Device::read(read_fonts::FontData::new(b)) {
+                    Ok(t) => Ok(t.iter().collect::<Vec<i8>>()),
+                    Err(e) => Err(format!("{e}")),
+                },
+                Err(e) => Err(e.clone()),
+            };
+            (fmt, d.start_size, d.end_size, by_ref, by_lib)
+        });
+        ctx.eval();
+        match r {
+            Ok((fmt, s0, e0, by_ref, by_lib)) => {
+                *formats.entry(fmt).or_default() += 1;
+                if (s0, e0) != (start, end) || by_ref.as_deref() != Some(&values[..]) {
+                    ctx.violation(
+                        &format!("device-new:packed-words-denote-other-deltas:format{}", fmt),
+                        json!({"what": "the delta words Device::new packed do not decode (OpenType packing) to the deltas passed in", "start": start, "end": end, "values": values, "got_sizes": [s0, e0], "decoded": by_ref}),
+                        None,
+                    );
+                }
+                match by_lib {
+                    Ok(v) if v == *values => {}
+                    other => {
+                        ctx.violation(
+                            &format!("device-new:compiled-device-reads-back-differently:format{}", fmt),
+                            json!({"what": "Device::new -> dump_table -> read-fonts Device::iter does not give the deltas passed in", "start": start, "end": end, "values": values, "read_back": format!("{:?}", other)}),
+                            None,
+                        );
+                    }
+                }
+            }
+            Err(p) => ctx.judge_panic(&p, "Device::new / dump_table / Device::iter", json!({"case": what}), None),
+        }
+    }
+    ctx.count("device_new_sequences", seqs.len() as u64);
+    for (f, n) in formats {
+        ctx.count(&format!("device_new_format{}", f), n);
     }
 }
